@@ -263,6 +263,12 @@ func init() {
 			return "", err
 		}
 		sb.WriteString("def replicaLogCalls : List String := " + LeanStrList(c08Calls(rl)) + "\n")
+		// every return tuple of ReplicaLog in source order, and the index it reports when Put failed
+		sb.WriteString("def replicaLogReturns : List String := " + LeanStrList(c08ReturnTexts(rl)) + "\n")
+		if err := expr(c08PutFailResult(rl), "replicaLogPutFailAck", []string{"appendIdx"}, nil); err != nil {
+			return "", err
+		}
+		sb.WriteString("def buildReplicaCalls : List String := " + LeanStrList(c08Calls(FindFunc(pt, "partition", "buildReplica"))) + "\n")
 		sb.WriteString("def replicaAckIndexReturn : String := " + fmt.Sprintf("%q", c08Text(c08Return(FindFunc(pt, "partition", "ReplicaAckIndex")))) + "\n")
 		if err := expr(c08CallArg(FindFunc(pt, "partition", "ResetReplicaIndex"), "SetAppendedSeq", 0), "followerResetSeq", []string{"idx"}, nil); err != nil {
 			return "", err
@@ -344,6 +350,50 @@ func c08ReturnExpr(fd *ast.FuncDecl) ast.Expr {
 	ast.Inspect(fd.Body, func(n ast.Node) bool {
 		if r, ok := n.(*ast.ReturnStmt); ok && len(r.Results) == 1 {
 			out = r.Results[0]
+		}
+		return true
+	})
+	return out
+}
+
+// c08ReturnTexts lists the result tuples of every return statement of fd in source order.
+func c08ReturnTexts(fd *ast.FuncDecl) []string {
+	var out []string
+	if fd == nil || fd.Body == nil {
+		return nil
+	}
+	ast.Inspect(fd.Body, func(n ast.Node) bool {
+		if r, ok := n.(*ast.ReturnStmt); ok {
+			var parts []string
+			for _, e := range r.Results {
+				parts = append(parts, types.ExprString(e))
+			}
+			out = append(out, strings.Join(parts, ", "))
+		}
+		return true
+	})
+	return out
+}
+
+// c08PutFailResult returns the first result of the return inside `if err := ...Put(...); err != nil { ... }`.
+func c08PutFailResult(fd *ast.FuncDecl) ast.Expr {
+	var out ast.Expr
+	if fd == nil || fd.Body == nil {
+		return nil
+	}
+	ast.Inspect(fd.Body, func(n ast.Node) bool {
+		is, ok := n.(*ast.IfStmt)
+		if !ok || is.Init == nil || out != nil {
+			return true
+		}
+		as, ok := is.Init.(*ast.AssignStmt)
+		if !ok || len(as.Rhs) != 1 || !strings.HasSuffix(types.ExprString(as.Rhs[0]), ".Put(msg)") {
+			return true
+		}
+		for _, st := range is.Body.List {
+			if r, ok := st.(*ast.ReturnStmt); ok && len(r.Results) == 2 {
+				out = r.Results[0]
+			}
 		}
 		return true
 	})
